@@ -17,7 +17,8 @@ def q(s):
 def rand_controller(rng, idx):
     kind = "class" if rng.random() < 0.9 else "interface"
     ctrl = rng.choice(["RestController", "RestController", "Controller", None])
-    cm = rng.choice([None, None, ("positional", rng.choice(PATHS[:3])), ("value", rng.choice(PATHS[:3]))])
+    # (a class-level path may end in a slash, `/api/v1/` + `orders`: the handler's URI is the two as written, one after the other)
+    cm = rng.choice([None, None, ("positional", rng.choice(PATHS[:3] + ["/api/v1/", "/"])), ("value", rng.choice(PATHS[:3] + ["/api/v1/"]))])
     members = []
     for j in range(rng.choice([1, 2, 3, 4])):
         r = rng.random()
